@@ -468,6 +468,8 @@ MASKS = {
     "inv": dict(BASE, bounded=False, invariants=True, objfluents=False, max_actions=3),
 }
 TMASK = dict(BASE, bounded=False, invariants=False, quantifiers=True, forall_eff=True, conditional=True)
+TEMPORAL = ("tmp", "tobj", "tinv")
+TMASK2 = dict(TMASK, objfluents=True, hier=True, max_objects=3)
 
 
 class _Shallow:
@@ -509,8 +511,9 @@ def make_corpus(rng, counts, deep_every=0):
     for k, m in MASKS.items():
         gens[k], deep[k] = SGen(rng, **m), Gen(rng, **m)
     gens["tmp"], deep["tmp"] = STGen(rng, **TMASK), TGen(rng, **TMASK)
+    gens["tobj"], deep["tobj"] = STGen(rng, **TMASK2), TGen(rng, **TMASK2)
     gens["tinv"], deep["tinv"] = STGen(rng, **dict(TMASK, invariants=True)), TGen(rng, **dict(TMASK, invariants=True))
-    for sl in ("cls", "num", "bnd", "inv", "tmp", "tinv"):
+    for sl in ("cls", "num", "bnd", "inv", "tmp", "tobj", "tinv"):
         for i in range(counts.get(sl, 0)):
             g = deep[sl] if deep_every and i % deep_every == deep_every - 1 else gens[sl]
             P = _fresh(g, want_clean=(i % 2 == 0), need_inv=sl in ("inv", "tinv"))
@@ -598,7 +601,7 @@ def worker(job):
     rng = random.Random(seed)
     rec = {"cid": cid, "slice": slice_, "P": P, "skip": "", "safe": 0, "R": None, "plans": [], "constructs": [], "fresh_env": False}
     try:
-        temporal = slice_ in ("tmp", "tinv")
+        temporal = slice_ in TEMPORAL
         cs = constructs_of(P)
         rec["constructs"] = cs or []
         # ANMLReader(env) with a fresh Environment: only on problems free of unparsable constructs (unambiguous signature)
@@ -635,7 +638,7 @@ def build_batches(recs, D):
             continue
         P, R = rec["P"], rec["R"]
         akeys = upj.keys_of(P)
-        temporal = rec["slice"] in ("tmp", "tinv")
+        temporal = rec["slice"] in TEMPORAL
         cid = rec["cid"]
         r = {"cid": cid, "A": P, "akeys": akeys, "B": P, "bkeys": akeys, "hasB": False, "wexc": R["wexc"], "rexc": R["rexc"],
              "nmiss": len(R["miss"]), "ncoll": len(R["coll"]), "temporal": temporal, "plans": []}
